@@ -215,6 +215,16 @@ def cases(ctx):
         bad.append((g.NSEC, b"\xc0\x0c" + bm))
     bad += [(g.NSEC, b""), (g.NSEC, b"\x01b"), (g.DNAME, b"\x01b\x00"), (g.DNAME, b"\x01b\x00\x00"), (g.DNAME, b"\xc0\x0c"), (g.DNAME, b""),
             (g.NSAP_PTR, b"\x01B\x00"), (g.BRID, b""), (g.BRID, b"abc"), (g.HHIT, b"\x00")]
+    # IPSECKEY / AMTRELAY: every gateway type, an unknown one, short and over-long addresses, a compressed name,
+    # octets after the relay, the D bit
+    for gt, gw in ((0, b""), (1, bytes(4)), (1, bytes(3)), (2, bytes(16)), (2, bytes(15)), (3, b"\x02gw\x00"), (3, b"\xc0\x0c"),
+                   (3, b"\x02GW\xc0\x0c"), (3, b""), (4, b""), (4, bytes(4)), (255, b""), (0, b"\x00")):
+        bad.append((g.IPSECKEY, bytes([10, gt, 2]) + gw + b"key"))
+        bad.append((g.IPSECKEY, bytes([10, gt, 2]) + gw))
+        bad.append((g.AMTRELAY, bytes([10, gt]) + gw))
+        bad.append((g.AMTRELAY, bytes([10, 128 | (gt & 127)]) + gw))
+        bad.append((g.AMTRELAY, bytes([10, gt]) + gw + b"x"))
+    bad += [(g.IPSECKEY, b""), (g.IPSECKEY, b"\x01\x00"), (g.AMTRELAY, b""), (g.AMTRELAY, b"\x01")]
     # two records of one set whose RDATA names differ in case only: one record for the types whose canonical form
     # downcases the name (RP), two for those that keep the case (NSAP-PTR; DNAME is a singleton: the second replaces)
     def two_rr(t, r1, r2):
@@ -227,7 +237,7 @@ def cases(ctx):
         yield "parse:case-pair", [2, two_rr(t, pre + b"\x03abc\x00" + post, pre + b"\x03abc\x00" + post), None, 16]
     for t, rdata in bad:
         yield "parse:rdata-checks", [2, one_rr(t, rdata), None, 16]
-        if t in (g.KX, g.PX, g.WKS, g.NAPTR, g.DHCID, g.NSAP, g.DS):
+        if t in (g.KX, g.PX, g.WKS, g.NAPTR, g.DHCID, g.NSAP, g.DS, g.IPSECKEY, g.AMTRELAY):
             yield "parse:rdata-checks", [2, one_rr(t, rdata, c=3), None, 16]
     # rcode / opcode / EDNS packing
     for _ in range(ctx.n(100, 1500)):
